@@ -636,7 +636,8 @@ func init() {
 	registerSuite("cookieattrs", func(c *suiteCtx) {
 		u := defaultUser()
 		big := idpUser{Sub: "user-big", Email: "big@example.com", EmailVerified: true, PreferredUser: strings.Repeat("p", 3000), Groups: []interface{}{strings.Repeat("g", 2500)}}
-		domSets := [][]string{nil, {".example.com"}, {".a.example.com", ".example.com"}, {".x.a.example.com", ".a.example.com", ".example.com"}, {"other.org"}}
+		domSets := [][]string{nil, {".example.com"}, {".a.example.com", ".example.com"}, {".x.a.example.com", ".a.example.com", ".example.com"}, {"other.org"},
+			{".example.com", ".example.com", ".internal.app.example.com"}, {".x.a.example.com", ".example.com", ".x.a.example.com", ".a.example.com"}}
 		hosts := []string{"app.example.com", "x.a.example.com", "deep.x.a.example.com:8080", "x.a.example.com:443", "unrelated.net", "unrelated.net:81", "[::1]:8080", "example.com"}
 		n := 0
 		for _, secure := range []bool{false, true} {
@@ -654,7 +655,7 @@ func init() {
 								continue
 							}
 							cfg := proxyCfg{CookieSecure: secure, CookieHTTPOnly: httponly, CookieSameSite: ss, CookieDomains: doms, CookiePath: path, CookieName: name,
-								Redis: mode == "redis", ReverseProxy: mode == "rp", CSRFPerRequest: n%2 == 0, InjectRequest: defaultInject()}
+								Redis: mode == "redis", ReverseProxy: mode == "rp", CSRFPerRequest: n%2 == 0, InjectRequest: defaultInject(), CookieRefresh: time.Hour}
 							e, err := newEnv(c, cfg)
 							if err != nil {
 								c.violation("HARNESS", "env: "+err.Error(), fmt.Sprintf("%+v", cfg))
@@ -693,6 +694,21 @@ func init() {
 									if r.raw != nil {
 										b.apply(r.raw)
 									}
+									// a request that REFRESHES the session (cookie re-issued by the stored-session loader, not by a handler)
+									if usr.Sub == u.Sub {
+										aged := e.sessionFor(usr, 2*time.Hour)
+										aged.RefreshToken = fmt.Sprintf("rt-ca-%d", time.Now().UnixNano())
+										e.registerRT(aged.RefreshToken, usr)
+										rr := e.do(reqSpec{Target: "/app/refresh", Cookie: e.issueSessionCookie(aged), Host: reqHost, Header: hdr})
+										if hasSessionSet(rr, e.opts.Cookie.Name) {
+											c.count("c18:refresh-reissue")
+										}
+									}
+									// a sign-out presenting a DAMAGED session cookie / ticket: its deletion carries the configured attributes all the same
+									if ck := b.cookieHeader(); ck != "" {
+										e.do(reqSpec{Target: "/oauth2/sign_out", Cookie: tamperMid(ck), Host: reqHost, Header: hdr})
+										e.do(reqSpec{Target: "/app/y", Cookie: tamperMid(ck), Host: reqHost, Header: hdr})
+									}
 									e.do(reqSpec{Target: "/oauth2/sign_out", Cookie: b.cookieHeader(), Host: reqHost, Header: hdr})
 									e.do(reqSpec{Target: "/app/x", Cookie: "x=1", Host: reqHost, Header: hdr})
 									c.casen(fmt.Sprintf("c18|%v|%v|%s|%d|%s|%s|%s|%s", secure, httponly, ss, di, path, mode, host, usr.Sub), fmt.Sprintf("%+v host=%s", cfg.CookieDomains, host))
@@ -705,6 +721,6 @@ func init() {
 				}
 			}
 		}
-		c.close([]string{"c18:flow", "c18:set-cookie"})
+		c.close([]string{"c18:flow", "c18:set-cookie", "c18:refresh-reissue"})
 	})
 }
